@@ -268,7 +268,7 @@ def evaluate(op, shape, chunks, dtype, enc, bare, threads=False, blockcheck=True
                 if o is not None and compare_arrays(rv, o, exact=True) is None:
                     sym = "array-axis-not-moved-first"
             rs, es = np.shape(rv), np.shape(e)
-            if (op == "getitem" and m[0] == "shape" and [d for d in rs if d != 1] == [d for d in es if d != 1]
+            if (op == "getitem" and sym == "shape" and [d for d in rs if d != 1] == [d for d in es if d != 1]
                     and any(en["k"] == "none" for en in enc)
                     and compare_arrays(np.reshape(rv, es), e, exact=True) is None):
                 sym = "size-1-axis-misplaced"   # same elements in the same order, a length-1 axis sits elsewhere
